@@ -104,7 +104,7 @@ def script(rng, kinds, workload, feedback, n, timed, failing=False):
             steps.append({"a": "rrtcp", "s": 1, "kind": "ccfb", "w": (w + n - 3) % 65536, "tw": 0, "id": 1, "fail": False})
         steps.append({"a": "heap", "ms": 30, "kind": "phase"})
         w += n + (7 if workload == "loss" else 0)     # lossy workload: the sender skips numbers between phases as well
-    steps += [{"a": "unbindl", "s": 1}, {"a": "unbindm", "s": 2}, {"a": "close"}, {"a": "heap", "ms": 50, "kind": "final"}]
+    steps += [{"a": "unbindl", "s": 1}, {"a": "unbindm", "s": 2}, {"a": "close"}, {"a": "heap", "ms": 50, "kind": "final", "id": n}]
     return {"members": members, "steps": steps, "watch": 120000, "settle": 5, "nowire": True}
 
 
